@@ -80,6 +80,19 @@ theorem respondActs_fullPlan (s : Sess) (r : Req) (h : Hint) (hc : r.cmd ≠ .co
     (repeat' split) <;> simp_all [respondActs, runRule, stepPlan, emitStop, terminateDebuggee, badArgs, query] <;>
       (repeat' split) <;> simp_all [respondActs, runRule]
 
+/-! ### cancellation bookkeeping -/
+
+theorem drain_cancelledReqs (x : Sess) : (drain x).1.cancelledReqs = x.cancelledReqs := by
+  unfold drain; simp only; split
+  · rfl
+  · split
+    · rfl
+    · split <;> rfl
+
+theorem insertSet_contains (n : Nat) (l : List Nat) : (insertSet n l).contains n = true := by
+  unfold insertSet
+  by_cases h : n ∈ l <;> simp [h]
+
 /-! ### error, not silence -/
 
 theorem mem_of_mem_resps (m : Msg) : ∀ out : List Msg, m ∈ resps out → m ∈ out := by
